@@ -272,7 +272,9 @@ impl Evaluator {
                 & !state.board().occupancy()
                 & !state.board().colored_attacks(!state.turn_to_move());
 
-            valid_king_squares.any()
+            // A check along a ray leaves the square behind the king unmarked in the attack
+            // map (the king itself blocks the ray), so the shortcut is only sound out of check
+            valid_king_squares.any() && !state.is_check()
         };
 
         // If the king can move, we're definitely not in checkmate or stalemate, so we can
